@@ -199,18 +199,23 @@ class Conn(object):
 
     @property
     def state(self):
+        # (if protocol.connectionLost raised, Twisted never tells the connector: its state stays
+        # 'connected' although the socket is gone - the transport knows better)
+        t = self.c.transport
+        if self.c.state == "connected" and t is not None and t.disconnected:
+            return "disconnected"
         return self.c.state
 
     def live(self):
-        return self.c.state in ("connecting", "connected")
+        return self.state in ("connecting", "connected")
 
     def readable(self):
         t = self.c.transport
-        return self.c.state == "connected" and t is not None and t.connected and not t.disconnecting
+        return self.state == "connected" and t is not None and t.connected and not t.disconnecting
 
     def closing(self):
         t = self.c.transport
-        return self.c.state == "connected" and t is not None and t.connected and t.disconnecting
+        return self.state == "connected" and t is not None and t.connected and t.disconnecting
 
 
 class World(object):
